@@ -180,32 +180,6 @@ class _FakeTime:
             self.go.pop(t, None)
 
 
-class _GatedEvent(threading.Event):
-    """`threading.Event` as seen by caching.py: a watched thread that starts to wait reports it and either
-    really waits (the other thread will set the event) or returns at once, as if the timeout had elapsed."""
-    ctl = None
-
-    def wait(self, timeout=None):
-        ctl = _GatedEvent.ctl
-        me = threading.current_thread()
-        if ctl is not None and me in ctl['watched']:
-            with ctl['cv']:
-                ctl['waiting'].add(me)
-                ctl['cv'].notify_all()
-            if ctl['mode'] == 'timeout':
-                return False
-            return threading.Event.wait(self, 30)
-        return threading.Event.wait(self, timeout)
-
-
-class _ThreadingShim:
-    def __init__(self):
-        self.Event = _GatedEvent
-
-    def __getattr__(self, name):
-        return getattr(threading, name)
-
-
 class _Env:
     inst = None
 
@@ -219,11 +193,9 @@ class _Env:
         self.clock = _FakeTime()
         caching.time = self.clock
         cpreq.time = self.clock
-        caching.threading = _ThreadingShim()
         self.cur = {}
         self.tls = threading.local()
         self._errsize = {}
-        self.gate = None          # {'thread':, 'cv':, 'inside':, 'open':} while a stampede scenario runs
         env = self
 
         class Root:
@@ -236,13 +208,6 @@ class _Env:
                 cur['gen'] += 1
                 g = cur['gen']
                 plan = env.tls.plan
-                gate = env.gate
-                if gate is not None and threading.current_thread() is gate['thread']:
-                    with gate['cv']:
-                        gate['inside'] = True
-                        gate['cv'].notify_all()
-                        if not gate['cv'].wait_for(lambda: gate['open'], timeout=30):
-                            raise RuntimeError('gate never opened')
                 resp = cherrypy.serving.response
                 h = resp.headers
                 if plan['vary']:
@@ -453,132 +418,15 @@ def run_history(case):
         env.drop_cache()
 
 
-def run_stampede(scn):
-    """Two real request threads around one AntiStampedeCache slot, under gates.
-
-    warm-up W (creates the resource) ; T1 runs R1 and is held inside the page handler (its miss left an Event
-    in the slot) ; T2 runs R2: with R1's key it reaches Event.wait -- mode 'result': it really waits and T1's
-    put wakes it ; mode 'timeout': the wait returns at once as if the timeout had elapsed -- with another key
-    it does not wait ; T1 is released ; both are joined ; an optional follow-up request F runs afterwards.
-    Returns the same shape as run_history for the pseudo-history [W, R1, R2, F].
-    """
-    env = _Env.get()
-    cp = env.cherrypy
-    env.drop_cache()
-    env.clock.now = T0
-    env.cur = {'gen': 0, 'plan': None}
-    cfg = dict(scn['cfg'], timeout=30)
-    app = env.new_app(cfg)
-    prods = {}
-    obs = [None, None, None]
-    errors = []
-    try:
-        obs[0] = do_request(env, app, scn['warm'], prods)
-        env.clock.wait_parked(cp._cache.expiration_thread)
-
-        def worker(i, op):
-            try:
-                obs[i] = do_request(env, app, op, prods)
-            except BaseException as e:      # noqa
-                errors.append(repr(e))
-        t1 = threading.Thread(target=worker, args=(1, scn['first']), name='c15-T1')
-        t2 = threading.Thread(target=worker, args=(2, scn['second']), name='c15-T2')
-        cv = threading.Condition()
-        env.gate = {'thread': t1, 'cv': cv, 'inside': False, 'open': False}
-        ctl = {'watched': {t2}, 'waiting': set(), 'mode': scn['mode'], 'cv': threading.Condition()}
-        _GatedEvent.ctl = ctl
-        t1.start()
-        with cv:
-            if not cv.wait_for(lambda: env.gate['inside'] or not t1.is_alive(), timeout=20):
-                raise common.HarnessError('stampede: T1 never reached the handler')
-        t2.start()
-        with ctl['cv']:
-            ctl['cv'].wait_for(lambda: t2 in ctl['waiting'] or not t2.is_alive(), timeout=0.05)
-        # T2 is either parked in Event.wait, or runs to completion on its own: poll its liveness deterministically
-        for _ in range(400):
-            with ctl['cv']:
-                if t2 in ctl['waiting'] or not t2.is_alive():
-                    break
-                ctl['cv'].wait(0.05)
-        else:
-            raise common.HarnessError('stampede: T2 neither waiting nor finished')
-        waited = t2 in ctl['waiting']
-        if scn['mode'] == 'timeout' and waited:
-            t2.join(20)                      # T2 goes on alone (handler, put) while T1 is still held
-        with cv:
-            env.gate['open'] = True
-            cv.notify_all()
-        t1.join(20)
-        t2.join(20)
-        if t1.is_alive() or t2.is_alive():
-            raise common.HarnessError('stampede: request threads did not finish')
-        if errors:
-            raise common.HarnessError('stampede: request thread raised %s' % errors[:2])
-        env.gate = None
-        _GatedEvent.ctl = None
-        ops = [scn['warm'], scn['first'], scn['second']]
-        if scn.get('follow'):
-            obs.append(do_request(env, app, scn['follow'], prods))
-            ops.append(scn['follow'])
-        return {'obs': obs, 'prods': prods, 'final': None, 'ops': ops, 'waited': waited}
-    finally:
-        env.gate = None
-        _GatedEvent.ctl = None
-        env.drop_cache()
-
-
-def gen_stampede(rng):
-    cfg = {'delay': rng.choice([2, 10]), 'maxobjects': 1000, 'maxobj_size': 100000, 'maxsize': 10000000}
-    vary = rng.sample(HDRS, rng.choice([1, 2, 2, 3]))
-    path, qs = rng.choice(PATHS), rng.choice(QUERIES)
-
-    def hd():
-        return {h: rng.choice(['p', 'q']) for h in HDRS}
-
-    def plan():
-        return {'vary': list(vary), 'size': rng.choice([12, 20]), 'ns': False, 'pnc': False}
-    h1 = hd()
-    r = rng.random()
-    if r < 0.45:
-        h2 = dict(h1)                               # same variant: T2 meets T1's Event
-    elif r < 0.75 and len(vary) >= 2:
-        h2 = dict(h1)                               # the values of two selecting headers swapped
-        a, b = rng.sample(vary, 2)
-        h2[a], h2[b] = h1[b], h1[a]
-    else:
-        h2 = hd()
-    hw = hd()
-    for _ in range(5):
-        if any(hw[v] != h1[v] for v in vary):
-            break
-        hw = hd()
-
-    def req(h, cc=None):
-        return ['R', 'GET', path, qs, h, None, cc, plan()]
-    scn = {'cfg': cfg, 'warm': req(hw), 'first': req(h1), 'second': req(h2),
-           'mode': rng.choice(['result', 'result', 'timeout']),
-           'follow': req(rng.choice([h1, h2, hd()])) if rng.random() < 0.7 else None}
-    return scn
-
-
-def check_stampede(ctx, scns):
-    for scn in scns:
-        res = run_stampede(scn)
-        case = {'cfg': scn['cfg'], 'ops': res['ops'], 'stampede': scn}
-        toks, _ = canon_real(dict(res, final=None))
-        second = toks[2]
-        ctx.case(case, nontrivial=res['waited'], key='stampede ' + json.dumps(scn, sort_keys=True))
-        ctx.count('stampede:%s:%s' % (scn['mode'] if res['waited'] else 'no-wait',
-                                      'hit' if second.startswith('H') else 'handler'))
-        for what, sig in oracle(case, res):
-            ctx.oracle_fail(case, 'anti-stampede scenario: ' + what, 'stampede:' + sig)
-        # the waiting thread is given exactly the response the other thread stored for this key
-        if res['waited'] and scn['mode'] == 'result':
-            o1, o2 = res['obs'][1], res['obs'][2]
-            if o2['handler_gen'] is None and o2['status'] != 400 and str(o1['handler_gen']) != o2['xgen']:
-                ctx.oracle_fail(case, 'anti-stampede scenario: the waiting request was served generation %s, the '
-                                'request it waited for produced %s' % (o2['xgen'], o1['handler_gen']),
-                                'stampede:foreign_result')
+def stampede_to_conc(scn):
+    """A two-thread anti-stampede scenario of the first harness generation (warm-up, T1 held inside the handler, T2
+    asking meanwhile, follow-up) as an interleaving scenario."""
+    reqs = [scn['warm'], scn['first'], scn['second']] + ([scn['follow']] if scn.get('follow') else [])
+    plan = [['run', 0], ['until', 1, 'store.get', 2], ['until', 2, 'ev.wait', 1]]
+    if scn.get('mode') == 'timeout':
+        plan += [['w', 2], ['run', 2]]
+    plan += [['run', 1], ['run', 2]] + ([['run', 3]] if scn.get('follow') else [])
+    return {'cfg': scn['cfg'], 'waits': True, 'reqs': reqs, 'plan': plan, 'seed': 0}
 
 
 # ----------------------------------------------------------------------------------------------
@@ -660,7 +508,7 @@ def snap_real(world, names, obs):
         else:
             th.append(stt.pending[0])
     x = world.sched.threads.get('X')
-    xp = x.pending[0] if x is not None and x.pending else '?'
+    xp = x.pending[0] if x is not None and x.pending else 'dead'
     return 'st[%s]uc[%s]ev[%s]ex[%s]bk[%s]cur=%d;th[%s]xp=%s' % (
         st, ';'.join(ucs), evs, ex, bk, cache.__dict__.get('_c15_cursize', 0), ','.join(th), xp)
 
@@ -703,6 +551,11 @@ class _Strategy:
             if item[0] == 'T':
                 self.plan.pop(0)
                 return ['T', item[1]]
+            if item[0] == 'w':
+                self.plan.pop(0)
+                if view['pending'].get(item[1]) == 'ev.wait':
+                    return ['w', item[1]]
+                continue
             if item[0] == 'X':
                 if item[-1] == 'started' and view['xp'] == 'sleep':
                     self.plan.pop(0)
@@ -774,6 +627,7 @@ def run_conc(scn, rng=None):
     names = []
     obs, prods, spans, errors = {}, {}, {}, {}
     acts, snaps = [], []
+    truncated = False
     try:
         app = env.new_app(dict(scn['cfg'], timeout=(30 if scn['waits'] else None), cache_class=mc))
         # the process-wide cache is created by the real tool code: an invalidating request to an unrelated URL
@@ -854,10 +708,11 @@ def run_conc(scn, rng=None):
                 acts.append(list(a))
                 snaps.append(snap_real(world, names, obs))
                 if len(acts) > MAX_ACTS:
-                    raise common.HarnessError('interleaving scenario did not finish within %d acts' % MAX_ACTS)
-        unfinished = [k for k in names if sched.threads[k].status != 'done']
+                    truncated = True       # the model finishes every thread within ~25 accesses: reported as a difference
+                    break
+        unfinished = [] if truncated else [k for k in names if sched.threads[k].status != 'done']
         return {'acts': acts, 'snaps': snaps, 'obs': obs, 'prods': prods, 'spans': spans, 'errors': errors,
-                'unfinished': unfinished, 'names': list(names), 'nfixed': nfixed}
+                'unfinished': unfinished, 'names': list(names), 'nfixed': nfixed, 'truncated': truncated}
     finally:
         sched.release_all()
         S._world[0] = None
@@ -1008,6 +863,7 @@ def _examine_conc(scn):
     toks = {k: (_done_token(o) if o is not None else 'EXC') for k, o in res['obs'].items()}
     return {'acts': res['acts'], 'snaps': res['snaps'], 'bad': oracle_conc(scn, res), 'toks': toks,
             'errors': res['errors'], 'unfinished': res['unfinished'], 'nfixed': res['nfixed'],
+            'truncated': res['truncated'],
             'nhit': sum(1 for t in toks.values() if t.startswith('H'))}
 
 
@@ -1015,7 +871,7 @@ def _examine_conc_many(scns):
     return [_examine_conc(s) for s in scns]
 
 
-def check_conc(ctx, scns, procs=None, expects=None):
+def check_conc(ctx, scns, procs=None, expects=None, compare=True):
     """expects (witness schedules of the Lean theorems): per scenario a list of [index into the recorded acts
     (-1: the last recorded one), substring the snapshot there must contain]."""
     if not scns:
@@ -1027,7 +883,7 @@ def check_conc(ctx, scns, procs=None, expects=None):
     else:
         results = _examine_conc_many(scns)
     lines = [conc_line(s, r['acts']) for s, r in zip(scns, results)]
-    model_out = ctx.model(lines)
+    model_out = ctx.model(lines) if compare else None
     for idx, (scn, r) in enumerate(zip(scns, results)):
         case = {'conc': dict(scn, acts=r['acts'], plan=None)}
         ctx.case(case, nontrivial=(r['nhit'] > 0 or any('ev.wait' in s for s in r['snaps'][-1:])), key=lines[idx])
@@ -1054,6 +910,9 @@ def check_conc(ctx, scns, procs=None, expects=None):
             if r['bad']:
                 continue
             msn = model_out[idx].split(' ') if model_out[idx] else []
+            if r['truncated'] and msn == r['snaps']:
+                ctx.disagree(case, 'threads still running after %d shared accesses' % len(r['acts']),
+                             'every thread is done', 'interleaving scenario: the real threads do not come to an end')
             if msn != r['snaps']:
                 first = next((i for i, (a, b) in enumerate(zip(r['snaps'], msn)) if a != b), min(len(msn), len(r['snaps'])))
                 impl = r['snaps'][first] if first < len(r['snaps']) else '(no snapshot)'
@@ -1585,9 +1444,7 @@ def run(ctx):
         if c is not None:
             check_cases(ctx, [c])
     check_cases(ctx, [c for c in corpus_cases() if 'stampede' not in c and 'conc' not in c])
-    check_stampede(ctx, [c['stampede'] for c in corpus_cases() if 'stampede' in c])
-    # anti-stampede placeholder under two real, gated request threads (oracle only; the model is sequential)
-    check_stampede(ctx, [gen_stampede(ctx.rng) for _ in range(ctx.budget(60, 1500))])
+    check_conc(ctx, [stampede_to_conc(c['stampede']) for c in corpus_cases() if 'stampede' in c])
     procs = min(ctx.budget(8, 16), os.cpu_count() or 4)
     # interleavings: real request threads + the real expiry thread, one shared-state access per step, every
     # step's shared state compared with CpModel.CacheConc
@@ -1616,6 +1473,19 @@ def search(ctx, around=None):
     """Deeper oracle-only hunt (called when the proof or the correspondence broke)."""
     procs = min(16, os.cpu_count() or 4)
     cases = []
+    if around is not None and 'conc' in around:
+        # the disagreement was found under an interleaving: hunt there first (same configuration, then any)
+        scns = []
+        for i in range(3000):
+            sc = gen_conc(ctx.rng)
+            if i % 2 == 0:
+                sc['cfg'] = dict(around['conc']['cfg'])
+                sc['waits'] = around['conc']['waits']
+            scns.append(sc)
+        check_conc(ctx, scns, procs=procs, compare=False)
+        around = None
+        if ctx.oracle_failures:
+            return
     if around is not None:
         # the neighbourhood of the disagreement: same configuration and URL/header alphabet, new histories
         for i in range(2000):
@@ -1627,6 +1497,8 @@ def search(ctx, around=None):
 
 
 def replay(ctx, case):
+    if 'stampede' in case:
+        case = {'conc': stampede_to_conc(case['stampede'])}
     if 'conc' in case:
         scn = case['conc']
         r = _examine_conc(scn)
@@ -1639,11 +1511,7 @@ def replay(ctx, case):
         check_conc(ctx, [scn])
         return
     if 'stampede' in case:
-        res = run_stampede(case['stampede'])
-        print('scenario:', json.dumps(case['stampede']))
-        print('impl    :', ' '.join(canon_real(dict(res, final=None))[0]), 'waited=%s' % res['waited'])
-        check_stampede(ctx, [case['stampede']])
-        return
+        case = {'conc': stampede_to_conc(case['stampede'])}
     res = run_history(case)
     toks, tail = canon_real(res)
     print('history:', model_line(case))
